@@ -185,6 +185,8 @@ def check_text(desc, text, m):
         try:
             r2 = repr(P(r))
         except Exception as e:
+            if isinstance(e, ValueError) and m.forced_twice:
+                return "forced-twice", fails, ncmp  # see ASSUMPTIONS: an effect forced twice through a LET reference
             fail("roundtrip-parse:" + type(e).__name__, f"printed form {r!r} does not parse: {exc(e)}")
             return "unresolved-ref", fails, ncmp
         ncmp += 1
@@ -264,12 +266,24 @@ def iter_desc(menu, maxlen, first, mod=1, rem=0):
             yield [menu[first]] + [menu[i] for i in rest]
 
 
+# descriptions behind recorded known findings that lie outside the quick tier's enumeration: examined in every run
+KNOWN_DESCS = [
+    [["COVARIATE", False, ["vals", ["V"]], ["ref", "C"], ["names", ["CAT"]], "*"],
+     ["COVARIATE", False, ["vals", ["V"]], ["ref", "C"], ["names", ["CAT"]], "*"],
+     ["COVARIATE", True, ["ref", "X"], ["vals", ["WGT"]], ["names", ["EXP", "POW"]], "+"], ["LET", "C", ["WGT", "SEX"]]],
+]
+
+
 def run_desc(shard, res):
-    _, size, maxlen, first, mod, rem = shard
-    menu = R.statement_menu(size)
+    if shard[1] == "known":
+        descs = iter(KNOWN_DESCS)
+    else:
+        _, size, maxlen, first, mod, rem = shard
+        menu = R.statement_menu(size)
+        descs = iter_desc(menu, maxlen, first, mod, rem)
     nval = 0
-    for desc in iter_desc(menu, maxlen, first, mod, rem):
-        if not legal_desc(desc):
+    for desc in descs:
+        if shard[1] != "known" and not legal_desc(desc):
             continue
         m = R.meaning(desc)
         for si, style in enumerate(R.STYLES):
@@ -1043,6 +1057,7 @@ def shards(tier):
         for first in range(n):
             for rem in range(mod):
                 out.append(("desc", size, maxlen, first, mod, rem))
+    out.append(("desc", "known"))
     npool = len(operand_pool(tier))
     pstep = 8 if tier == "quick" else 25
     for lo in range(0, npool, pstep):
